@@ -3,8 +3,10 @@
 package cosmosdb
 
 import (
+	"context"
 	"sync"
 
+	"github.com/Azure/azure-sdk-for-go/sdk/azcore/runtime"
 	"github.com/Azure/azure-sdk-for-go/sdk/data/azcosmos"
 	"github.com/element-of-surprise/coercion/plugins/registry"
 )
@@ -16,6 +18,81 @@ func NewFakeVaultForVerif(reg *registry.Register) *Vault {
 	mu := &sync.RWMutex{}
 	defaultIOpts := &azcosmos.ItemOptions{}
 	rd := reader{mu: mu, container: "container", client: store, defaultIOpts: defaultIOpts, reg: reg}
+	return &Vault{
+		reader:  rd,
+		creator: creator{mu: mu, client: store, reader: rd},
+		updater: newUpdater(mu, store, defaultIOpts),
+		deleter: deleter{mu: mu, client: store, reader: rd},
+		closer:  closer{},
+	}
+}
+
+// pagedClient re-serves what the package's fake answers to a query as several pages, linked by continuation tokens,
+// optionally with an empty page (that still carries a token) after the first one - as the real service may do. It
+// changes nothing about WHICH items the fake returns; it only exercises the readers' paging loops.
+type pagedClient struct {
+	*fakeStorage
+	pageSize   int
+	emptyAfter bool
+}
+
+func (p *pagedClient) NewQueryItemsPager(query string, pk azcosmos.PartitionKey, o *azcosmos.QueryOptions) *runtime.Pager[azcosmos.QueryItemsResponse] {
+	inner := p.fakeStorage.NewQueryItemsPager(query, pk, o)
+	var all [][]byte
+	var ferr error
+	for {
+		res, err := inner.NextPage(context.Background())
+		if err != nil {
+			ferr = err
+			break
+		}
+		all = append(all, res.Items...)
+		if !inner.More() {
+			break
+		}
+	}
+	type page struct {
+		items [][]byte
+	}
+	var pages []page
+	for i := 0; i < len(all); i += p.pageSize {
+		j := i + p.pageSize
+		if j > len(all) {
+			j = len(all)
+		}
+		pages = append(pages, page{items: all[i:j]})
+		if p.emptyAfter && i == 0 && j < len(all) {
+			pages = append(pages, page{}) // an empty page in the middle of the result
+		}
+	}
+	if len(pages) == 0 {
+		pages = []page{{}}
+	}
+	next := 0
+	return runtime.NewPager(runtime.PagingHandler[azcosmos.QueryItemsResponse]{
+		More: func(pg azcosmos.QueryItemsResponse) bool { return pg.ContinuationToken != nil },
+		Fetcher: func(ctx context.Context, _ *azcosmos.QueryItemsResponse) (azcosmos.QueryItemsResponse, error) {
+			if ferr != nil {
+				return azcosmos.QueryItemsResponse{}, ferr
+			}
+			pg := pages[next]
+			next++
+			out := azcosmos.QueryItemsResponse{Items: pg.items}
+			if next < len(pages) {
+				tok := "more"
+				out.ContinuationToken = &tok
+			}
+			return out, nil
+		},
+	})
+}
+
+// NewPagedFakeVaultForVerif is NewFakeVaultForVerif with the reader's queries answered in pages of pageSize items.
+func NewPagedFakeVaultForVerif(reg *registry.Register, pageSize int, emptyAfter bool) *Vault {
+	store := newFakeStorage(reg)
+	mu := &sync.RWMutex{}
+	defaultIOpts := &azcosmos.ItemOptions{}
+	rd := reader{mu: mu, container: "container", client: &pagedClient{fakeStorage: store, pageSize: pageSize, emptyAfter: emptyAfter}, defaultIOpts: defaultIOpts, reg: reg}
 	return &Vault{
 		reader:  rd,
 		creator: creator{mu: mu, client: store, reader: rd},
